@@ -5,6 +5,7 @@
 -/
 import Driver.Fam.Block
 import PgVerif.Model.Checksum
+import PgVerif.Spec.PgChecksum
 namespace Driver.Fam.Checksum
 open PgVerif Driver Driver.Fam.Block
 open PgVerif.Spec.BlockAddr
@@ -74,54 +75,91 @@ def cksumfile : Family := { name := "cksumfile", gen := cksumfileGen, eval := ck
 
 /-! ## cksumdir -/
 
-/-- flat description of a data directory: `(path relative to the data directory, some contents)` for a
-file, `(path, none)` for a directory -/
-abbrev Flat := List (String × Option Bytes)
+/-- flat description of a data directory: `(path relative to the data directory, kind)` -/
+inductive FlatKind where
+  | file (data : Bytes)
+  | dir
+  | link (target : String)      -- symbolic link to a path relative to the data directory
+deriving Repr, Inhabited
+
+abbrev Flat := List (String × FlatKind)
 
 def bstr (b : Bytes) : String := String.ofList (b.map fun c => Char.ofNat c.toNat)
 
-def flatten (base : BaseDir) : Flat :=
-  [("base", none)] ++
-  base.dbs.flatMap (fun db =>
-    let d := "base/" ++ toString db.oid
-    [(d, none)] ++ db.segs.map (fun s => (d ++ "/" ++ bstr s.name, some (encFile s.file))) ++
-      db.others.map (fun (n, data) => (d ++ "/" ++ bstr n, some data)) ++
-      db.subdirs.map (fun n => (d ++ "/" ++ bstr n, none))) ++
-  base.strayFiles.map (fun n => ("base/" ++ bstr n, some (zeros 8192 ++ [1]))) ++
-  base.strayDirs.flatMap (fun (n, files) =>
-    [("base/" ++ bstr n, none)] ++ files.map fun (fname, data) => ("base/" ++ bstr n ++ "/" ++ bstr fname, some data))
+/-- a generic file tree -/
+inductive Node where
+  | file (data : Bytes)
+  | dir (kids : List (String × Node))
+  | link (target : String)
+deriving Inhabited
 
-/-- add an entry to a database directory -/
-def addDbEntry (entries : List (Bytes × Model.DbEntry)) (name : Bytes) (e : Model.DbEntry) : List (Bytes × Model.DbEntry) :=
-  if entries.any (·.1 == name) then entries else entries ++ [(name, e)]
-
-def addBase (base : List (Bytes × Model.BaseEntry)) (comps : List String) (data : Option Bytes) :
-    List (Bytes × Model.BaseEntry) :=
+partial def Node.insert (n : Node) (comps : List String) (k : FlatKind) : Node :=
   match comps with
-  | [] => base
-  | [a] =>
-    let a := strBytes a
-    if base.any (·.1 == a) then base
-    else base ++ [(a, match data with | some _ => .file | none => .dir [])]
-  | a :: b :: more =>
-    let a := strBytes a
-    let base := if base.any (·.1 == a) then base else base ++ [(a, .dir [])]
-    base.map fun (n, e) =>
-      if n == a then
-        match e with
-        | .dir entries =>
-          (n, .dir (addDbEntry entries (strBytes b) (if more.isEmpty then (match data with | some d => .file d | none => .dir) else .dir)))
-        | .file => (n, e)
-      else (n, e)
+  | [] => n
+  | c :: more =>
+    let kids := match n with | .dir ks => ks | _ => []
+    let leaf : Node := match k with | .file d => .file d | .dir => .dir [] | .link t => .link t
+    if more.isEmpty then
+      if kids.any (·.1 == c) then n else .dir (kids ++ [(c, leaf)])
+    else
+      let kids := if kids.any (·.1 == c) then kids else kids ++ [(c, .dir [])]
+      .dir (kids.map fun (name, child) => if name == c then (name, child.insert more k) else (name, child))
 
-/-- the model's file-system parameter for a flat description -/
+partial def Node.find (n : Node) (comps : List String) : Option Node :=
+  match comps with
+  | [] => some n
+  | c :: more => match n with
+    | .dir ks => match ks.find? (·.1 == c) with
+      | some (_, child) => child.find more
+      | none => none
+    | _ => none
+
+def treeOf (flat : Flat) : Node := flat.foldl (fun t (p, k) => t.insert (p.splitOn "/") k) (.dir [])
+
+def dbEntries (ks : List (String × Node)) : List (Bytes × Model.DbEntry) :=
+  ks.map fun (n, c) => (strBytes n, match c with | .file d => .file d | .dir _ => .dir | .link _ => .file [])
+
+def baseEntries (ks : List (String × Node)) : List (Bytes × Model.BaseEntry) :=
+  ks.map fun (n, c) => (strBytes n, match c with | .dir es => .dir (dbEntries es) | _ => .file)
+
+def verEntries (ks : List (String × Node)) : List (Bytes × Model.VerEntry) :=
+  ks.map fun (n, c) => (strBytes n, match c with | .dir es => .dir (baseEntries es) | _ => .file)
+
+/-- the model's file-system parameter for a flat description (a symbolic link below `pg_tblspc` is followed) -/
 def mkFS (flat : Flat) : Model.DataDirFS :=
-  let hasBase := flat.any fun (p, _) => p == "base" || p.startsWith "base/"
-  let base := flat.foldl (fun acc (p, data) =>
-    match p.splitOn "/" with
-    | "base" :: comps => addBase acc comps data
-    | _ => acc) []
-  ⟨false, if hasBase then some base else none⟩
+  let root := treeOf flat
+  let kidsOf (p : List String) : Option (List (String × Node)) :=
+    match root.find p with | some (.dir ks) => some ks | _ => none
+  let spcs : List (Bytes × Model.SpcEntry) := ((kidsOf ["pg_tblspc"]).getD []).map fun (n, c) =>
+    (strBytes n, match c with
+      | .dir vs => .dir (verEntries vs)
+      | .link t => (match root.find (t.splitOn "/") with | some (.dir vs) => .dir (verEntries vs) | _ => .file)
+      | .file _ => .file)
+  { checksumsEnabled := false, base := (kidsOf ["base"]).map baseEntries,
+    global := (kidsOf ["global"]).map dbEntries, tblspc := spcs }
+
+def dbFlat (d : String) (db : Database) : Flat :=
+  [(d, .dir)] ++ db.segs.map (fun s => (d ++ "/" ++ bstr s.name, .file (encFile s.file))) ++
+    db.others.map (fun (n, data) => (d ++ "/" ++ bstr n, .file data)) ++
+    db.subdirs.map (fun n => (d ++ "/" ++ bstr n, .dir))
+
+def baseFlat (d : String) (base : BaseDir) : Flat :=
+  [(d, .dir)] ++
+  base.dbs.flatMap (fun db => dbFlat (d ++ "/" ++ toString db.oid) db) ++
+  base.strayFiles.map (fun n => (d ++ "/" ++ bstr n, .file (zeros 8192 ++ [1]))) ++
+  base.strayDirs.flatMap (fun (n, files) =>
+    [(d ++ "/" ++ bstr n, .dir)] ++ files.map fun (fname, data) => (d ++ "/" ++ bstr n ++ "/" ++ bstr fname, .file data))
+
+/-- the tree of a data directory; the tablespaces whose oid is in `linked` live in `_ts/<oid>` and
+`pg_tblspc/<oid>` is a symbolic link to that directory (as in a real cluster) -/
+def flatten (d : DataDir) (linked : List Nat) : Flat :=
+  baseFlat "base" d.base ++
+  (match d.globalDir with | some g => dbFlat "global" g | none => []) ++
+  (if d.tablespaces.isEmpty then [] else [("pg_tblspc", .dir)]) ++
+  d.tablespaces.flatMap fun t =>
+    if linked.contains t.oid then
+      [(s!"pg_tblspc/{t.oid}", .link s!"_ts/{t.oid}")] ++ baseFlat (s!"_ts/{t.oid}/" ++ bstr t.verDir) t.dbs
+    else baseFlat (s!"pg_tblspc/{t.oid}/" ++ bstr t.verDir) t.dbs
 
 def sortFiles {α} (key : α → Bytes × Bytes) (xs : List α) : List α :=
   xs.mergeSort fun a b =>
@@ -143,31 +181,45 @@ def showDirView (r : CkDirView) : String :=
 def cksumdirOut (flat : Flat) : String := showR showDirRes (Model.verifyDataDirChecksums ck (mkFS flat))
 
 def showFlat (flat : Flat) : List String :=
-  flat.map fun (p, d) => match d with
-    | some data => "f:" ++ p ++ "=" ++ hexRle data
-    | none => "d:" ++ p
+  flat.map fun (p, k) => match k with
+    | .file data => "f:" ++ p ++ "=" ++ hexRle data
+    | .dir => "d:" ++ p
+    | .link t => "l:" ++ p ++ "=" ++ t
 
 def parseFlat (args : List String) : Flat :=
   args.filterMap fun a =>
-    if a.startsWith "d:" then some ((a.drop 2).toString, none)
+    if a.startsWith "d:" then some ((a.drop 2).toString, .dir)
     else if a.startsWith "f:" then
       match ((a.drop 2).toString).splitOn "=" with
-      | [p, h] => some (p, some (unhex h))
+      | [p, h] => some (p, .file (unhex h))
+      | _ => none
+    else if a.startsWith "l:" then
+      match ((a.drop 2).toString).splitOn "=" with
+      | [p, t] => some (p, .link t)
       | _ => none
     else none
 
 /-- a block that must show up as invalid if its file is (wrongly) visited -/
 def noiseData : Bytes := encBlock ⟨⟨1, 2, 0x5555, 0, 28, 8000, 8192, 8196, 0⟩, [7] ++ zeros 8167⟩
 
+def genFork : Gen Fork := Gen.oneOf [.main, .main, .main, .fsm, .vm, .init]
+
+/-- names that are NOT relation segment files (PostgreSQL's grammar: `<relfilenode>[_fsm|_vm|_init][.<segno>]`) -/
+def otherNames (n : String) : List String :=
+  ["PG_VERSION", "pg_filenode.map", "pg_internal.init", "pg_control", s!"{n}.1x", s!"{n}.", ".1", s!"t3_{n}", s!"{n}.x", s!"{n}.-1",
+   s!"{n}.+1", s!"{n}.1.bak", s!"{n}.10_fsm", s!"x{n}", s!"{n} ", s!"{n}.1 ", "1.2.3x", s!"{n}_fsm_vm", s!"{n}_fsm.", "_fsm", "_vm.1",
+   s!"{n}_FSM", s!"{n}_vm.x", s!"{n}_initx", s!"t3_{n}_fsm", s!"{n}_", s!"{n}_fs", "4294967296", "4294967296_vm", s!"{n}.4294967296"]
+
 def genDatabase (oid : Nat) (size : Nat) : Gen (Database × Nat) := do
   let nrel ← Gen.range 0 (1 + size)
   let mut segs : Array SegFile := #[]
   let mut nbad := 0
-  let mut used : List Nat := []
+  let mut used : List (Nat × Fork) := []
   for _ in [0:nrel] do
-    let node ← Gen.oneOf [1259, 2619, 16384, 16385, 16400, 24576, 4294967295, 1, 100, 101]
-    if !used.contains node then
-      used := node :: used
+    let node ← Gen.oneOf [1259, 2619, 16384, 16385, 16400, 24576, 4294967295, 1, 100, 101, 1260, 1262]
+    let fork ← genFork
+    if !used.contains (node, fork) then
+      used := (node, fork) :: used
       -- which segment numbers exist: a contiguous run from 0, sometimes with a gap or a lone high one
       let hi ← Gen.oneOf [0, 0, 1, 2, 9, 10, 11, 12]
       let segNums ← match ← Gen.below 4 with
@@ -179,21 +231,18 @@ def genDatabase (oid : Nat) (size : Nat) : Gen (Database × Nat) := do
         let (bs, nb) ← genStamped s n
         nbad := nbad + nb
         let tail ← if n == 0 then Gen.Block.genTail else (if ← Gen.prob 1 8 then Gen.Block.genTail else pure [])
-        segs := segs.push ⟨node, s, ⟨bs, tail⟩⟩
-  let otherNames := ["PG_VERSION", "pg_filenode.map", "pg_internal.init", "16384_fsm", "16384_vm", "16384_vm.1",
-    "16384_init", "16384.1x", "16384.", ".1", "t3_16384", "16384.x", "16384.-1", "16384.+1", "16384.1.bak",
-    "16384.10_fsm", "x16384", "16384 ", "16384.1 ", "1.2.3x"]
+        segs := segs.push ⟨node, fork, s, ⟨bs, tail⟩⟩
   let k ← Gen.range 0 6
   let mut others : Array (Bytes × Bytes) := #[]
   for _ in [0:k] do
-    let n ← Gen.oneOf otherNames
+    let n ← Gen.oneOf (otherNames "16384")
     if !others.any (·.1 == strBytes n) then others := others.push (strBytes n, noiseData)
-  let subdirs ← if ← Gen.prob 1 4 then pure [strBytes "pgsql_tmp", strBytes "777"] else pure []
+  let subdirs ← if ← Gen.prob 1 4 then pure [strBytes "pgsql_tmp", strBytes "777", strBytes "778_fsm"] else pure []
   let subdirs := subdirs.filter fun d => !segs.any (·.name == d)
   return (⟨oid, segs.toList, others.toList, subdirs⟩, nbad)
 
-def genBaseDir (size : Nat) : Gen (BaseDir × Nat) := do
-  let ndb ← Gen.range 0 3
+def genBaseDir (size : Nat) (maxDb : Nat) : Gen (BaseDir × Nat) := do
+  let ndb ← Gen.range 0 maxDb
   let oids ← Gen.shuffle [1, 5, 13, 16384, 4294967295, 20, 100]
   let mut dbs : Array Database := #[]
   let mut nbad := 0
@@ -208,47 +257,95 @@ def genBaseDir (size : Nat) : Gen (BaseDir × Nat) := do
     else pure []
   return (⟨dbs.toList, strayFiles, strayDirs⟩, nbad)
 
+/-- entries around the tablespaces that must not be visited -/
+def tblspcNoise : Flat :=
+  [("pg_tblspc", .dir), ("pg_tblspc/xx/PG_15_202209061/5/100", .file noiseData), ("pg_tblspc/777", .file noiseData),
+   ("pg_tblspc/16500/other/7/16501", .file noiseData), ("pg_tblspc/16500/PG_file", .file noiseData),
+   ("pg_tblspc/16500/pg_15/7/16501", .file noiseData), ("pg_tblspc/16500/PG_link", .link "_ts/stray"),
+   ("_ts/stray/7/16501", .file noiseData), ("pg_tblspc/16501", .link "_ts/nowhere"), ("pg_tblspc/16502", .link "_ts/afile"),
+   ("_ts/afile", .file noiseData), ("pg_tblspc/16500/PG_16_202307071/x7/16501", .file noiseData),
+   ("pg_tblspc/16500/PG_16_202307071/8", .file noiseData)]
+
+def genDataDir (size : Nat) : Gen (DataDir × Nat × List Nat × Flat) := do
+  let (base, nb0) ← genBaseDir size 3
+  let mut nbad := nb0
+  let globalDir ← if ← Gen.prob 2 3 then (do
+      let (g, nb) ← genDatabase 0 size
+      pure (some g, nb)) else pure (none, 0)
+  nbad := nbad + globalDir.2
+  let nts ← Gen.oneOf [0, 0, 1, 2]
+  let mut tss : Array Tablespace := #[]
+  let mut linked : List Nat := []
+  for i in [0:nts] do
+    let (b, nb) ← genBaseDir size 2
+    nbad := nbad + nb
+    let oid := 16400 + i
+    tss := tss.push ⟨oid, strBytes (← Gen.oneOf ["PG_15_202209061", "PG_16_202307071", "PG_12_201909212"]), b⟩
+    if ← Gen.bool then linked := oid :: linked
+  let noise ← if ← Gen.prob 1 3 then pure tblspcNoise else pure []
+  return (⟨globalDir.1, base, tss.toList⟩, nbad, linked, noise)
+
 /-- a block with a plausible header, stamped good or bad for its relation-wide number -/
 def fixedBlock (seg i : Nat) (good : Bool) : RawBlock :=
   stamp ⟨⟨seg + 1, i + 1, 0, 0, 28, 8000, 8192, 8196, 0⟩, [UInt8.ofNat (seg * 16 + i + 1)] ++ zeros 8167⟩
     (seg * 131072 + i) good (seg + i)
 
-/-- deterministic directories: 0 = one relation with every segment 0..12 present (good and bad blocks
-alternating) next to every kind of non-relation file; 1 = the witness of defect A60 -/
-def fixedBaseDirs : List BaseDir :=
+/-- deterministic directories: 0 = one relation with every segment 0..12 present (good and bad blocks alternating)
+next to every kind of non-relation file; 1 = the witness of defect A60; 2 = the witness of the fork / global /
+tablespace defect (fixes 08, 09): one bad block in each of a main fork, its three other forks (one with a
+segment suffix), a shared catalog in `global/` and two tablespaces (one behind a symbolic link), next to the names
+that must stay unvisited -/
+def fixedDataDirs : List (DataDir × List Nat × Flat) :=
   let noise (names : List String) : List (Bytes × Bytes) := names.map fun n => (strBytes n, noiseData)
   let d0 : Database :=
     { oid := 16384,
       segs := (List.range 13).map fun s =>
-        ⟨2619, s, ⟨(List.range (1 + s % 2)).map fun i => fixedBlock s i ((s + i) % 2 == 0), if s == 12 then [1, 2, 3] else []⟩⟩,
-      others := noise ["PG_VERSION", "pg_filenode.map", "pg_internal.init", "2619_fsm", "2619_vm", "2619_vm.1", "2619_init",
-        "2619.1x", "2619.", ".1", "t3_2619", "2619.x", "2619.-1", "2619.+1", "2619.1.bak", "2619.10_fsm"],
+        ⟨2619, .main, s, ⟨(List.range (1 + s % 2)).map fun i => fixedBlock s i ((s + i) % 2 == 0), if s == 12 then [1, 2, 3] else []⟩⟩,
+      others := noise (otherNames "2619"),
       subdirs := [strBytes "pgsql_tmp", strBytes "777"] }
   let d1 : Database :=
     { oid := 1,
-      segs := [0, 1, 9, 10, 11].map fun s => ⟨100, s, ⟨[fixedBlock s 0 false], []⟩⟩,
-      others := noise ["100.x", "100_fsm", "100.1x", "PG_VERSION", "pg_filenode.map", "100.", ".1"],
+      segs := [0, 1, 9, 10, 11].map fun s => ⟨100, .main, s, ⟨[fixedBlock s 0 false], []⟩⟩,
+      others := noise ["100.x", "100.1x", "PG_VERSION", "pg_filenode.map", "100.", ".1"],
       subdirs := [] }
-  [⟨[d0], [strBytes "PG_VERSION"], [(strBytes "pgsql_tmp", [(strBytes "2619", noiseData)])]⟩, ⟨[d1], [], []⟩]
+  let bad (node : Nat) (fork : Fork) (seg : Nat) : SegFile := ⟨node, fork, seg, ⟨[fixedBlock seg 0 false], []⟩⟩
+  let d2 : Database :=
+    { oid := 1, segs := [bad 100 .main 0, bad 100 .fsm 0, bad 100 .vm 0, bad 100 .init 0, bad 100 .vm 1, bad 100 .fsm 11],
+      others := noise ["100_fsm_vm", "t3_100", "100_vm.x", "100.1_fsm"], subdirs := [strBytes "101_fsm"] }
+  let g2 : Database :=
+    { oid := 0, segs := [bad 1260 .main 0, bad 1262 .main 0, bad 1260 .vm 0],
+      others := noise ["pg_control", "pg_filenode.map", "pg_internal.init"], subdirs := [] }
+  let t1 : Tablespace := ⟨16400, strBytes "PG_15_202209061", ⟨[{ oid := 5, segs := [bad 16401 .main 0], others := noise ["pg_internal.init"], subdirs := [] }], [], []⟩⟩
+  let t2 : Tablespace := ⟨16500, strBytes "PG_16_202307071", ⟨[{ oid := 7, segs := [bad 16501 .vm 0], others := [], subdirs := [] }], [strBytes "8"], []⟩⟩
+  [(⟨none, ⟨[d0], [strBytes "PG_VERSION"], [(strBytes "pgsql_tmp", [(strBytes "2619", noiseData)])]⟩, []⟩, [], []),
+   (⟨none, ⟨[d1], [], []⟩, []⟩, [], []),
+   (⟨some g2, ⟨[d2], [], []⟩, [t1, t2]⟩, [16400], tblspcNoise.filter fun (p, _) => p != "pg_tblspc/16500/PG_16_202307071/8")]
 
 /-- args: the flat entries (shuffled: the order of creation must not matter) -/
 def cksumdirGen (seed idx size : Nat) : Case :=
-  let g : Gen (BaseDir × Nat × Flat) := do
-    let (b, nbad) ← if idx < fixedBaseDirs.length then pure (fixedBaseDirs.getD idx default, 1) else genBaseDir size
-    let fl := flatten b
+  let g : Gen (DataDir × Nat × Flat) := do
+    let (d, nbad, linked, noise) ← match fixedDataDirs[idx]? with
+      | some (d, linked, noise) => pure (d, 1, linked, noise)
+      | none => genDataDir size
+    let fl := flatten d linked ++ noise
     -- keep "base" first so that the tree exists, shuffle the rest
     let rest ← Gen.shuffle (fl.drop 1)
-    return (b, nbad, fl.take 1 ++ rest)
-  let (b, nbad, flat) := g.run' (Prng.ofSeed seed idx)
-  let view := ckDirView ck b
-  let multiDigit := b.dbs.any fun db => db.segs.any fun s => s.seg ≥ 10 && s.file.blocks.length ≥ 1
-  { tags := [s!"dbs={b.dbs.length}", if nbad == 0 then "bad=0" else "bad>0",
-             if multiDigit then "seg>=10" else "seg<10"] ++ (if view.totalFiles > 0 then ["nt"] else []),
-    model := cksumdirOut flat, spec := showDirView view, args := showFlat flat }
+    return (d, nbad, fl.take 1 ++ rest)
+  let (d, nbad, flat) := g.run' (Prng.ofSeed seed idx)
+  let view := ckDirView ck d
+  let wf := decide d.WF          -- the hypothesis of Props.C19.C19_cksum_dir_spec, checked on every generated directory
+  let allDbs := d.base.dbs ++ d.globalDir.toList ++ d.tablespaces.flatMap (·.dbs.dbs)
+  let visited (p : SegFile → Bool) := allDbs.any fun db => db.segs.any fun s => p s && s.file.blocks.length ≥ 1
+  { tags := [s!"dbs={d.base.dbs.length}", if nbad == 0 then "bad=0" else "bad>0",
+             if visited (·.seg ≥ 10) then "seg>=10" else "seg<10",
+             if visited (·.fork != .main) then "forks" else "mainonly",
+             if d.globalDir.isSome then "global" else "noglobal",
+             s!"tblspc={d.tablespaces.length}"] ++ (if view.totalFiles > 0 then ["nt"] else []) ++ (if wf then [] else ["NOT-WF"]),
+    model := cksumdirOut flat, spec := if wf then showDirView view else "-", args := showFlat flat }
 
 def cksumdirEval (args : List String) : String := cksumdirOut (parseFlat args)
 
-def cksumdir : Family := { name := "cksumdir", gen := cksumdirGen, eval := cksumdirEval, fixed := fixedBaseDirs.length }
+def cksumdir : Family := { name := "cksumdir", gen := cksumdirGen, eval := cksumdirEval, fixed := fixedDataDirs.length }
 
 /-! ## toolcksum: the tool's own two checksum functions on arbitrary input (reached by name in the harness) -/
 
@@ -276,5 +373,68 @@ def toolcksumEval (args : List String) : String :=
   | _ => "bad-args"
 
 def toolcksum : Family := { name := "toolcksum", gen := toolcksumGen, eval := toolcksumEval, fixed := 0 }
+
+/-! ## pgcksum: the tool's verdict for one block against PostgreSQL's (open finding `C19-checksum-not-postgres`)
+
+PostgreSQL's verdict is known without the base-offset table of `pg_checksum_page` exactly where the Spec's
+`pageVerdict` does not depend on the table: all-zero blocks (valid) and non-new blocks whose stored checksum is 0
+(invalid for every table: `Proofs.PgChecksum.pageVerdict_stored_zero`).  Elsewhere the spec column is "-". -/
+
+open PgVerif.Spec.PgChecksum in
+/-- the Spec's verdict where it is the same for every table -/
+def pgVerdictText (page : Bytes) (bn : Nat) : String :=
+  if allZero page || (pdUpper page != 0 && pdChecksum page == 0) then
+    match pageVerdict (List.replicate 32 0) page bn with
+    | some v => s!"{b2s v}:{pdChecksum page}"
+    | none => "-"
+  else "-"
+
+open PgVerif.Spec.PgChecksum in
+/-- the class of the open finding that is visible without the table: a non-new block with stored checksum 0 on
+which the tool's own function gives 0 -/
+def inNotPostgresClass (page : Bytes) (bn : Nat) : Bool :=
+  page.length == 8192 && !allZero page && pdUpper page != 0 && pdChecksum page == 0 &&
+    Model.computePageChecksum page bn == 0
+
+def pgcksumOut (page : Bytes) (bn : Nat) : String :=
+  showM (fun (r : Model.ChecksumResult) => s!"{b2s r.valid}:{r.stored}") (Model.verifyPageChecksum ck page bn)
+
+/-- the tool's sum before the block number is mixed in -/
+def toolRaw (page : Bytes) : Nat := (Model.words32 (Model.pageCopy page)).foldl Model.checksumComp 0
+
+/-- the witness of the finding (`Proofs.PgChecksum.witnessPage`): an empty heap page, stored checksum 0, block 0 -/
+def witnessPage : Bytes := zeros 12 ++ [24, 0, 0, 32, 0, 32, 4, 32] ++ zeros 8168 ++ [0x78, 0x48, 0, 0]
+
+def emptyHeapPage : Bytes := zeros 12 ++ [24, 0, 0, 32, 0, 32, 4, 32] ++ zeros 8172
+
+def pgcksumFixed : List (Bytes × Nat) :=
+  [(witnessPage, 0), (zeros 8192, 0), (zeros 8192, 7), (emptyHeapPage, 1), (emptyHeapPage, toolRaw emptyHeapPage),
+   (emptyHeapPage, toolRaw emptyHeapPage ^^^ (0x1234 * 65537))]
+
+/-- args: block number, page -/
+def pgcksumGen (seed idx _size : Nat) : Case :=
+  let g : Gen (Bytes × Nat) := do
+    match pgcksumFixed[idx]? with
+    | some c => return c
+    | none =>
+      let b ← Gen.Block.genBlock
+      let mode ← Gen.below 4
+      let b : RawBlock := if mode < 3 then { b with hdr := { b.hdr with checksum := 0 } } else b
+      let page := encBlock b
+      let bn ← if mode < 2 then pure ((toolRaw page ^^^ ((← Gen.below 65536) * 65537)) % 2 ^ 32) else Gen.Block.gen32
+      return (page, bn)
+  let (page, bn) := g.run' (Prng.ofSeed seed idx)
+  let cls := inNotPostgresClass page bn
+  { tags := (if cls then ["kf:C19-checksum-not-postgres"] else []) ++
+            [if Spec.PgChecksum.allZero page then "zero" else if Spec.PgChecksum.pdUpper page == 0 then "new" else
+              if Spec.PgChecksum.pdChecksum page == 0 then "stored=0" else "stored>0", "nt"],
+    model := pgcksumOut page bn, spec := pgVerdictText page bn, args := [toString bn, hexRle page] }
+
+def pgcksumEval (args : List String) : String :=
+  match args with
+  | [bn, data] => pgcksumOut (unhex data) bn.toNat!
+  | _ => "bad-args"
+
+def pgcksum : Family := { name := "pgcksum", gen := pgcksumGen, eval := pgcksumEval, fixed := pgcksumFixed.length }
 
 end Driver.Fam.Checksum
